@@ -14,6 +14,7 @@ from ..report import Run
 from ..values import (ELL, Const, DictV, ListV, PropsV, SchemaV, Spread, Sym, Term, TupleV, V, is_ell)
 from ..visits import list_shapes, Config, configs_for, run_visit, substitutor_ctx
 from ..vtable import extract
+from .c02 import TYPE
 from .c12 import validated
 
 SCALARS = ("visit_bool", "visit_int", "visit_float", "visit_str", "visit_bytes", "visit_uuid4", "visit_datetime", "visit_date")
@@ -24,6 +25,19 @@ def result_props(p: Path) -> Optional[PropsV]:
     if isinstance(v, SchemaV) and isinstance(v.props, PropsV):
         return v.props
     return None
+
+
+_PRE_EXTRA: Dict[Tuple[int, str], bool] = {}
+
+
+def _prevalidation_reports_extra(prog: Program, model: Model, cfg: Config) -> bool:
+    """Does SubstitutorValidator.visit_dict, under this key table, report an ExtraKeyValidationError on some path (so
+    that a value with undeclared keys never reaches the substitution proper)?"""
+    ck = (id(prog), cfg.label)
+    if ck not in _PRE_EXTRA:
+        rows, _ = extract(prog, model, "SubstitutorValidator", "visit_dict", cfg, 1)
+        _PRE_EXTRA[ck] = any(r.error == "ExtraKeyValidationError" for r in rows)
+    return _PRE_EXTRA[ck]
 
 
 def dict_results(prog: Program, model: Model, cfg: Config) -> List[Tuple[Path, Dict[str, Optional[bool]], Optional[DictV]]]:
@@ -62,6 +76,7 @@ def check(run: Run, prog: Program, model: Model, tier: str) -> None:
         "partition range(len(value)). any: never empty. The generator returns props.value whenever it is set and the "
         "validator compares with it. That the chosen window is the right one on concrete values is not decided."
         " Two members deep, the member pinned at position j derives from value[j] (no equality-keyed memo); an exact element list generates one member per element under every length prop-set; the conversion used for free-form positions is not memoised by equality.")
+    run.explanation += " GIVEN-KEYS (inside DICT-TABLE): a key of the value that the table does not declare is refused - a condition over all keys of the value is tested on the path, or the pre-validation of that table has an extra-key row. NATIVE-CONTRACT: C14's ARM/FINAL obligations for from_native are re-derived, because free positions rely on them."
     run.rule_text = "obligations per (visit method, prop-set/shape) and clause; non-trivial = result tables computed on interpreter paths"
     # ---------------------------------------------------------------- PIN
     for hook in SCALARS:
@@ -81,6 +96,11 @@ def check(run: Run, prog: Program, model: Model, tier: str) -> None:
                 if v.cls is None or v.cls.qualname != st.cls.qualname:
                     probs.append("result is not built with schema.__class__")
                 pin = pr.vals.get("value")
+                # K(value) for the kind K the validation established is an equal value of that kind: it pins the same data
+                kname = TYPE.get(hook)
+                while kname and isinstance(pin, Term) and pin.op == "call" and len(pin.args) == 2 \
+                        and pin.args[0] == f"builtins.{kname}" and isinstance(pin.args[1], V) and validated(p) is True:
+                    pin = pin.args[1]
                 if pin is None or pin.key() != "value":
                     probs.append(f"result pins {pin.key()[:40] if pin is not None else 'nothing'} instead of the substituted value")
             if not rets:
@@ -104,11 +124,12 @@ def check(run: Run, prog: Program, model: Model, tier: str) -> None:
             continue
         probs = []
         plain_orig = [(k, tv) for k, tv in orig.pairs() if not is_ell(k)] if isinstance(orig, DictV) else []
+        closed_empty = isinstance(orig, DictV) and not plain_orig and not any(is_ell(k) for k, _ in orig.pairs())
         for p, given, tbl in rs:
             if tbl is None:
                 probs.append("result has no concrete key table")
                 continue
-            if not plain_orig:
+            if not plain_orig and not closed_empty:
                 # untyped / only-relaxed dict: every item of the value becomes a required from_native member
                 for k, tv in tbl.pairs():
                     if is_ell(k):
@@ -148,6 +169,18 @@ def check(run: Run, prog: Program, model: Model, tier: str) -> None:
                         probs.append(f"unspecified key {k.key()} changed from ({om.key()}, {of.key()}) to ({gm.key()[:30]}, {gf.key()})")
             had_rel = any(is_ell(k) for k, _ in orig.pairs())
             has_rel = tbl.lookup(ELL) is not None
+            # GIVEN-KEYS: "dicts on every key given" - a key of the value that the table does not declare must make the
+            # substitution fail: either this path tested a condition over ALL keys of the value, or the result table
+            # was built from all of them, or (closed tables) the pre-validation reports undeclared keys
+            all_keys_seen = any(any(m in fk for m in ("items(value)", "keys(value)", "src(value)", "set(value)", "builtins.set, value"))
+                                for fk, _, _ in p.facts) or any("@value" in k.key() for k, _ in tbl.pairs()) \
+                or any(e.kind in ("loop", "comp_iter") and isinstance(e.data.get("iterable"), V)
+                       and e.data["iterable"].key() in ("items(value)", "keys(value)", "value", "src(value)", "set(value)")
+                       for e in p.events)
+            if not all_keys_seen and not (not had_rel and _prevalidation_reports_extra(prog, model, cfg)):
+                probs.append("a key given in the value but not declared in the table is neither refused (no test over all keys of "
+                             "the value on this path" + ("" if had_rel else ", no extra-key report in the pre-validation of this table")
+                             + ") nor pinned")
             if had_rel and not has_rel:
                 probs.append("relaxed marker lost")
             if has_rel and not had_rel:
@@ -364,7 +397,9 @@ def _list_cover(run: Run, prog: Program, model: Model, tier: str) -> None:
     run.floor("LIST-GEN", 8)
     # free-form positions are pinned through from_native: the conversion must not be memoised by equality, or the
     # member pinned for 1.0 is the one built earlier for True (necessary for "the result accepts v")
-    from .c14 import _memo
+    from .c14 import _memo, native_contract
+    native_contract(run, prog, model, tier, "at a position the schema leaves open the result then rejects the very value that was "
+                    "substituted, although the original accepts it")
     conv = model.visitors["Substitutor"].lookup("_from_native")
     _memo(run, prog, model, prog.func("d42.utils._from_native.from_native"), rule="CONVERT-PURE",
           roots=[conv] if conv is not None else None, prefixes=("d42.utils", "d42.substitution"))
@@ -373,6 +408,15 @@ def _list_cover(run: Run, prog: Program, model: Model, tier: str) -> None:
 SU = "d42/substitution/_substitutor.py"
 G = "d42/generation/_generator.py"
 MUTANTS = [
+    {"name": "empty closed table: pre-validation returns early and the unknown-key loop only runs for relaxed tables (seeded C04-I)", "rule": "DICT-TABLE",
+     "edits": [("d42/substitution/_substitutor.py", "            for key, val in value.items():\n                if key not in schema.props.keys:\n                    raise SubstitutionError(f\"Unknown key {key!r}\")\n",
+                "            if ... in schema.props.keys:\n                for key in value:\n                    if key not in schema.props.keys:\n                        raise SubstitutionError(f\"Unknown key {key!r}\")\n"),
+               ("d42/substitution/_validator.py", "        if schema.props.keys is Nil:\n            return result\n\n        for key, (val, is_optional) in schema.props.keys.items():\n            if is_ellipsis(key):", "        if not schema.props.keys:\n            return result\n\n        for key, (val, is_optional) in schema.props.keys.items():\n            if is_ellipsis(key):")]},
+    {"name": "neutral: unknown-key loop only for relaxed tables (closed ones are covered by the pre-validation)", "expect": "SILENT",
+     "edits": [("d42/substitution/_substitutor.py", "            for key, val in value.items():\n                if key not in schema.props.keys:\n                    raise SubstitutionError(f\"Unknown key {key!r}\")\n",
+                "            if ... in schema.props.keys:\n                for key in value:\n                    if key not in schema.props.keys:\n                        raise SubstitutionError(f\"Unknown key {key!r}\")\n")]},
+    {"name": "from_native converts tuples like lists (seeded C04-J)", "rule": "NATIVE-CONTRACT",
+     "edits": [("d42/utils/_from_native.py", "isinstance(value, list)", "isinstance(value, (list, tuple))")]},
     {"name": "pin keeps an existing value", "rule": "PIN",
      "edits": [(SU, "        return schema.__class__(schema.props.update(value=value))\n\n    def visit_int", "        return schema.__class__(schema.props if schema.props.value is not Nil else schema.props.update(value=value))\n\n    def visit_int")]},
     {"name": "given keys keep is_optional", "rule": "DICT-TABLE",
